@@ -74,7 +74,7 @@ def main(tier_):
         d = data["per"][ci]
         k, e = d["kernel"], d["emulated"]
         stats["mutation_cases"] += 1
-        same = k["out"][0] == e["out"][0] and (k["out"][0] != "err" or k["out"][1] == e["out"][1]) and k["shape"] == e["shape"]
+        same = k["out"][0] == e["out"][0] and (k["out"][0] != "err" or k["out"][1] == e["out"][1]) and k["shape"] == e["shape"] and k.get("newattrs") == e.get("newattrs")
         if same and k["out"][0] == "ok" and c["op"]["op"] == "create_file":
             same = norm(k["raw"])[2:] == norm(e["raw"])[2:]
         if not same:
